@@ -995,7 +995,8 @@ class ManyToMany:
         """
         if key not in self.data:
             return
-        self.data[newkey] = fwdset = self.data.pop(key)
+        fwdset = self.data.pop(key)
+        self.data.setdefault(newkey, set()).update(fwdset)
         for val in fwdset:
             revset = self.inv.data[val]
             revset.remove(key)
